@@ -29,6 +29,10 @@ pub uninterp spec fn p2wpkh_script(k: CompressedPublicKey, n: Network) -> Script
 pub uninterp spec fn p2shwpkh_script(k: CompressedPublicKey, n: Network) -> ScriptBuf;
 pub uninterp spec fn p2pkh_script(k: CompressedPublicKey, n: Network) -> ScriptBuf;
 pub uninterp spec fn p2tr_script(k: CompressedPublicKey, n: Network) -> ScriptBuf;
+pub uninterp spec fn script_is_empty(s: ScriptBuf) -> bool;
+impl ScriptBuf {
+    #[verifier::external_body] pub fn is_empty(&self) -> (r: bool) ensures r == script_is_empty(*self) { unimplemented!() }
+}
 impl DerivationPath {
     #[verifier::external_body] pub fn len(&self) -> (r: usize) ensures r == path_len(*self) { unimplemented!() }
     #[verifier::external_body] pub fn is_empty(&self) -> (r: bool) ensures r == (path_len(*self) == 0) { unimplemented!() }
